@@ -198,9 +198,9 @@ def run_shard(args: Dict[str, Any]) -> Dict[str, Any]:
             if isinstance(exc, Flaky) and failing['case'] is not None and failing['viol'] is not None \
                     and getattr(mod, 'FLAKY_IS_VIOLATION', None) and mod.FLAKY_IS_VIOLATION(failing['case']):
                 # a violation was observed on the real code but did not recur when Hypothesis re-ran the case: only possible for
-                # the cases that run real threads (their schedule belongs to the operating system); what was seen stands
+                # cases that run real threads, iterate a set, or (pure checks) when the library carried state from an earlier case; what was seen stands
                 result['violation'] = {'case': failing['case'], 'viol': failing['viol'].to_json(),
-                                       'source': 'hypothesis (observed once; real-thread case, not deterministic)'}
+                                       'source': 'hypothesis (observed once; did not recur on the re-run of the same case - see the check module\'s FLAKY_IS_VIOLATION)'}
             else:
                 result['error'] = traceback.format_exc()
                 if failing['case'] is not None:
